@@ -35,7 +35,7 @@ type pmsg struct {
 	DutyType      int32
 	Entries       []pentry
 	AltIdx        int
-	AltIdxs       []int // all altered entries of a coordinated multi-entry alteration (nil: just AltIdx)
+	AltIdxs       []int         // all altered entries of a coordinated multi-entry alteration (nil: just AltIdx)
 	Clock         time.Duration // offset of the node's clock while the message is handled
 	NilDuty       bool
 	NilSet        bool
@@ -45,7 +45,7 @@ type pmsg struct {
 	Fault int32
 	// FailReason names the defect when the entry does not verify (otherwise derived by diffing against the baseline).
 	FailReason string
-	MustAdmit     bool
+	MustAdmit  bool
 }
 
 func encodeEntry(e pentry) (b []byte, err error) {
@@ -572,6 +572,9 @@ func (e *env) runPeer(c *kit.Case, w *world, tg target) {
 		if m.MustAdmit && ok {
 			validOK++
 		}
+	}
+	if !tg.Prod || k.Name != "exit" {
+		e.overlapTrial(c, w, tg, k, v, from, share, baseInfo, newMsg, entryOf)
 	}
 	r.Count("peer_verifications_started_with_done_context", w.ctxDead.Load())
 	if validOK > 0 && mustRejectSeen > 0 {
